@@ -29,6 +29,12 @@ pub fn judge<R>(idx: u64, acc: &mut Acc, case: &dyn Fn() -> Value, run: &dyn Fn(
     match run_once(acc, run) {
         Ok(r) => Some(r),
         Err(m) => {
+            // only the failures with the smallest indices are kept; within one accumulator indices
+            // increase, so once it holds its quota a further failure is only counted
+            if acc.fails.len() >= 6 {
+                acc.fail_count += 1;
+                return None;
+            }
             let mut k = 0;
             for _ in 0..5 {
                 let mut scratch = Acc::default();
